@@ -673,7 +673,11 @@ func (g Gateway) GetByIndexStream(in *hydrapb.GetByIndexStreamRequest, stream hy
 		candidates = applyTimeRange(candidates, beaconType, fromTime, toTime)
 		sortCandidates(candidates, beaconType, order)
 		treasures = applyFromLimit(candidates, in.GetFrom(), in.GetLimit())
-		residualFilters = plan.Residual
+		// The candidates only narrow the walk: the complete filter (not
+		// plan.Residual) is evaluated on each of them, so the indexed leg's
+		// label is reported and a record matches on this route exactly when
+		// it matches on the scan route.
+		residualFilters = filters
 	} else {
 		// Bypass: legacy beacon walk, full per-row predicate.
 		var err error
@@ -810,7 +814,8 @@ func (g Gateway) GetByIndexStreamFromMany(in *hydrapb.GetByIndexStreamFromManyRe
 				candidates = applyTimeRange(candidates, beaconType, fromTime, toTime)
 				sortCandidates(candidates, beaconType, order)
 				treasures = applyFromLimit(candidates, query.GetFrom(), query.GetLimit())
-				residualFilters = plan.Residual
+				// complete filter on the candidates, as in GetByIndexStream
+				residualFilters = filters
 			} else {
 				treasures, err = swampInterface.GetTreasuresByBeacon(
 					beaconType, order,
